@@ -1,6 +1,7 @@
 import PartituraModel.Wire
 import PartituraModel.Model.Unfold
 import PartituraModel.Model.UnfoldFam
+import PartituraModel.Model.UnfoldIds
 
 open Wire Model.Unfold
 
@@ -13,10 +14,17 @@ Requests (L = layout, PART = abstract part):
   var   L nr ar il idx upd PART   -> ([points],[objects sorted],[(t,q)],duration) | err
   fam   L                         -> chain <flags> | volta <pre> <k> <post> <asg> | dc-fine | dc-coda | ds-coda | none
                                      (the layout family of Props/C09Ext the layout is an instance of, all hypotheses checked)
+  ids   L                         -> [[code points of the id of segment i] ..., [69,78,68]]   | err
+                                     (`chr(65+i)` for every segment, then `END`: ties `segId` of Model/UnfoldIds, about which
+                                      Props/C09Many proves that string order = numeric order, to the ids the code really uses)
+  segstr L                        -> [([to: code points of every id string],[await_to: likewise])]   | err
+                                     (the cleanup done on the raw STRINGS with Python's string order — `mkSegmentsStr`;
+                                      Props/C09Many proves it equal to `seg` read through `segId`; compared with the real lists)
 Destinations are printed as segment numbers, `END` as `E`.
 -/
 
-def FUEL : Nat := 400
+/-- one unit of fuel per visited segment; Python gives up (RecursionError) at about 990 visits -/
+def FUEL : Nat := 1000
 
 def pLayout : P Layout := do
   let first ← int
@@ -92,6 +100,19 @@ def handle (ts : List String) : String :=
     | some L => match mkSegments L with
       | none => "err"
       | some g => fmtList fmtSeg g
+  | "ids" :: rest =>
+    match run pLayout rest with
+    | none => "bad-request"
+    | some L => match mkSegments L with
+      | none => "err"
+      | some g => fmtList (fmtList fmtNat) (idTable g.length)
+  | "segstr" :: rest =>
+    match run pLayout rest with
+    | none => "bad-request"
+    | some L => match mkSegmentsStr L with
+      | none => "err"
+      | some g => fmtList (fun r : List PyStr × List PyStr =>
+          fmtTuple [fmtList (fmtList fmtNat) r.1, fmtList (fmtList fmtNat) r.2]) g
   | "fam" :: rest =>
     match run pLayout rest with
     | none => "bad-request"
